@@ -33,20 +33,25 @@ def sh(cmd, timeout, env=None, cwd=None):
 
 
 # ---------------------------------------------------------------- harness build
+SHIP = {"core": "shipping", "hooked": "hooked-ship", "wasm": "wasm-ship"}      # flavour -> the same flavour compiled as users ship the crate
+
+
 def build_harness(kind):
-    """kind: 'core' (public API only, no cfg) or 'hooked' (--cfg fast_qr_verif).  Rebuilds from /repo's tree."""
+    """kind: 'core' (public API only, no cfg), 'hooked' (--cfg fast_qr_verif), 'wasm' (host build of wasm.rs only), or the
+    shipping twin of one of them ('shipping', 'hooked-ship', 'wasm-ship': no debug assertions, no overflow checks).
+    Rebuilds from /repo's tree."""
     os.makedirs(WORK, exist_ok=True)
     lock = open(os.path.join(WORK, f".build-{kind}.lock"), "w")
     fcntl.flock(lock, fcntl.LOCK_EX)
     try:
         env = {"CARGO_TARGET_DIR": os.path.join(HARNESS, "target", kind), "CARGO_NET_OFFLINE": "true"}
-        cmd = ["cargo", "build", "--release", "--offline", "--quiet"]
-        if kind == "shipping":    # public API only, the crate compiled without debug assertions and overflow checks
-            cmd = ["cargo", "build", "--profile", "shipping", "--offline", "--quiet"]
-        if kind == "hooked":
+        ship = kind in SHIP.values()
+        base = {v: k for k, v in SHIP.items()}.get(kind, kind)
+        cmd = ["cargo", "build", "--offline", "--quiet"] + (["--profile", "shipping"] if ship else ["--release"])
+        if base == "hooked":
             env["RUSTFLAGS"] = GUARD_FLAGS
             cmd += ["--features", "hooks"]
-        elif kind == "wasm":      # host build of wasm.rs only: survives a refactor that breaks the stage re-exports of src/verif.rs
+        elif base == "wasm":      # host build of wasm.rs only: survives a refactor that breaks the stage re-exports of src/verif.rs
             env["RUSTFLAGS"] = GUARD_FLAGS + " --cfg fast_qr_verif_wasm_only"
             cmd += ["--features", "wasmonly"]
         t0 = time.time()
@@ -55,7 +60,7 @@ def build_harness(kind):
             errs = "\n".join(l for l in out.splitlines() if l.startswith("error") or "-->" in l)[:3000]
             raise ToolError(f"harness ({kind}) does not build against /repo's working tree:\n{errs}")
         log(f"[build] harness {kind} ok in {time.time()-t0:.1f}s")
-        return os.path.join(HARNESS, "target", kind, "shipping" if kind == "shipping" else "release", "fqv")
+        return os.path.join(HARNESS, "target", kind, "shipping" if ship else "release", "fqv")
     finally:
         fcntl.flock(lock, fcntl.LOCK_UN)
         lock.close()
